@@ -181,7 +181,7 @@ class TablerowNode(Node):
     def _int_or_zero(self, arg: object) -> int:
         try:
             return to_int(arg)
-        except ValueError:
+        except (ValueError, TypeError, OverflowError):
             return 0
 
     def render_to_output(self, context: RenderContext, buffer: TextIO) -> int:
